@@ -382,6 +382,9 @@ func runLife(w *writer, c *lifeCase) {
 		case <-ln.closed:
 			lw.log(Ev{"ev": "dial.refused", "conn": id})
 			return
+		case <-ln.failed:
+			lw.log(Ev{"ev": "dial.refused", "conn": id})
+			return
 		default:
 		}
 		select {
@@ -448,6 +451,10 @@ func runLife(w *writer, c *lifeCase) {
 				cancel()
 			case "shutdown":
 				shutdown()
+			case "lfail":
+				// the environment: the listener fails although neither Shutdown nor cancellation asked for it
+				lw.log(Ev{"ev": "op", "a": "lfail", "p": 0})
+				ln.fail()
 			case "acc":
 				if !serveStarted {
 					startServe() // the serve call installs its listener: the accept loop's first step
